@@ -75,9 +75,9 @@ Post_RemoveVel(d) ==
 \* remove_matrixzeros_sinex(file): only all-zero matrix lines disappear
 Post_RemoveZeros(d) == [d EXCEPT !.sparse = TRUE]
 
-\* ASSUMPTION (DESIGN C18 quantifier: generated files carry every element of the triangle):
-\* remove_stns_sinex is applied to files whose matrix block is dense.
-En_RemoveStns(d, S) == S \subseteq SitesOf(d) /\ S # SitesOf(d) /\ ~d.sparse
+\* any removal set of stations of the file that leaves at least one; the matrix block may be
+\* dense or have its all-zero lines removed (omitted elements of a SINEX matrix are zero)
+En_RemoveStns(d, S) == S \subseteq SitesOf(d) /\ S # SitesOf(d)
 En_RemoveVel(d) == d.vel
 
 (* ------------------------------ the matrix ------------------------------ *)
